@@ -9,6 +9,7 @@ ROOT = R.ROOT
 COMPONENTS = {
     "idx": dict(driver_mode="idx",
                 targets=[("idx0", "idx.cpp", "-DIDX_GROUP=0"), ("idx1", "idx.cpp", "-DIDX_GROUP=1"), ("idx2", "idx.cpp", "-DIDX_GROUP=2")]),
+    "dyn": dict(driver_mode="dyn", targets=[("dyn", "dyn.cpp", "")]),
 }
 
 TRUSTED_COMMON = [
@@ -35,6 +36,12 @@ PROPS = {
              nontrivial=lambda line: len(line.split("|")[1].split()) >= 2),
     "C07": P(comp="idx", gen=lambda t, s: gens.gen_idx(t, s + 2), judges=["C07"], kinds=("IDX",),
              nontrivial=lambda line: len(line.split("|")[1].split()) >= 64),
+    "C05": P(comp="dyn", gen=lambda t, s: gens.gen_dyn(t, s), judges=["C05"], kinds=("DYN",),
+             nontrivial=lambda line: len(line.split("|")[2].split()) >= 10),
+    "C06": P(comp="dyn", gen=lambda t, s: gens.gen_dyn(t, s + 3), judges=["C06"], kinds=("DYN",),
+             nontrivial=lambda line: len(line.split("|")[2].split()) >= 10),
+    "C15": P(comp="dyn", gen=lambda t, s: gens.gen_dyn(t, s + 6), judges=["C15"], kinds=("DYN",),
+             nontrivial=lambda line: len(line.split("|")[2].split()) >= 10),
     "C03": P(comp="idx", gen=lambda t, s: gens.gen_seg(t, s), judges=["C03"], kinds=("SEG",),
              nontrivial=lambda line: len(line.split("|")[1].split()) >= 3),
     "C04": P(comp="idx", gen=lambda t, s: gens.gen_seg(t, s + 5), judges=["C04"], kinds=("SEG",),
@@ -63,7 +70,7 @@ def probe_env(exe):
             conv = "avx512" if l.split()[1] == str(2 ** 64 - 1) else "sse"
     return dict(conv=conv)
 
-def shrink(pid, spec, line, fails, ctx):
+def shrink(pid, spec, line, fails, ctx, full=True):
     """Greedy delta-debugging on the sections of a failing case line. `fails(line)` re-runs both sides."""
     head, *secs = [s.strip() for s in line.split("|")]
     secs = [s.split() for s in secs]
@@ -75,6 +82,9 @@ def shrink(pid, spec, line, fails, ctx):
         try:
             if fails(" | ".join([head] + [" ".join(s) for s in trial])): secs = trial
         except Exception: pass
+    if not full:
+        return " | ".join([head] + [" ".join(s) for s in secs])
+    deadline = time.time() + 60
     def build(ss): return " | ".join([head] + [" ".join(s) for s in ss])
     def still(ss):
         if budget[0] <= 0 or time.time() > deadline: return False
@@ -173,7 +183,7 @@ def check(pid, tier, seed, args, t0):
                     seen_classes.add(hit["key"]); known_hits.append(hit)
                 continue
             if nrep >= 3: continue
-            small = shrink(pid, spec, line, rerun_fails, what)
+            small = shrink(pid, spec, line, rerun_fails, what, full=(nrep == 0 and len(line) < 100000))
             rp = os.path.join(replay_dir, "%s-%d.case" % (pid, nrep)); nrep += 1
             open(rp, "w").write("# property %s judge %s failed on the implementation's output: %s\n# replay: python3 run.py --property %s --replay %s\n%s\n" % (pid, j, what, pid, rp, small))
             violations.append((rp, False))
